@@ -32,6 +32,7 @@ type drvState struct {
 	lrText     string
 	parserT    *types.Named
 	tlen       map[string]int64
+	lrGraph    *lrGraph
 }
 
 func newDrvEngine(w *World, name string, props []string) (*scanEngine, error) {
@@ -821,6 +822,14 @@ func debugDrv(args []string) int {
 	dv := se.drv
 	for _, f := range dv.facts {
 		fmt.Printf("table %-24s %v %s\n", f.name, f.ok, f.why)
+	}
+	if ok, d := dv.lrDepthLemma(); true {
+		fmt.Println("table lr-depth", ok, d)
+		ok2, d2 := dv.acceptLemma()
+		fmt.Println("table accept-via-rule-1", ok2, d2)
+	}
+	if os.Getenv("VC_DRV_TABLES") != "" {
+		return 0
 	}
 	fmt.Printf("cuts=%d locals=%d structs=%d action write keys=%d frame errors=%v const globals=%v\n", len(se.order), len(se.locals), len(se.structRef), len(dv.actionKeys), dv.frameErr, dv.constG)
 	if err := se.instantiate(); err != nil {
